@@ -214,7 +214,12 @@ def upgrade_case(fmt, dag, layout, acc):
                           dict(detail, error=str(e)[:200]))
             return
         for (p, r), bef in zip(locs, before):
-            aft = observe(p, r, strict)
+            try:
+                aft = observe(p, r, strict)
+            except Exception as e:  # noqa
+                acc.violation("upgrade:%s:location-unreadable-afterwards:%s:%s" % (layout, type(e).__name__, _where(e)),
+                              dict(detail, location=os.path.basename(p), error=str(e)[:200]))
+                return
             d = first_diff(bef, aft)
             if d:
                 acc.violation("upgrade:%s:%s-not-preserved" % (layout, d),
@@ -240,7 +245,13 @@ def _brief(obs, key):
     return repr(v)[:600]
 
 
+def _quiet():
+    import logging
+    logging.getLogger("brz").setLevel(logging.ERROR)
+
+
 def _work_upgrade(chunk):
+    _quiet()
     acc = par.Acc()
     for i, fmt, dag, layout in chunk:
         upgrade_case(fmt, dag, layout, acc)
@@ -378,10 +389,13 @@ def reconfigure_case(fmt, start, pending, path_ops, acc):
                     return
                 continue
             d = first_diff(first, after)
+            if d is None and after["tree"] is None and before["tree"] is not None and before["tree"]["changes"]:
+                d = "pending-changes(tree-destroyed)"
             if d:
                 acc.violation("reconfigure:%s:%s-not-preserved" % (op, d),
                               dict(detail, failing_step=k, layout_before=list(lay), layout_after=list(nlay),
-                                   before=_brief(first, d), after=_brief(after, d)))
+                                   before=_brief(first, d) if "(" not in d else None,
+                                   after=_brief(after, d) if "(" not in d else None))
                 return
             if not requested_layout_reached(op, nlay):
                 acc.violation("reconfigure:%s:requested-layout-not-reached" % op,
@@ -407,6 +421,7 @@ class Acc(par.Acc):
 
 
 def _work_reconf(chunk):
+    _quiet()
     acc = Acc()
     for i, fmt, start, pending, ops in chunk:
         acc.n += 1
